@@ -929,6 +929,9 @@ def contexts_active_in_frame(
         args = inspect.getargvalues(next_inner)
         if args.args:
             ret[-1].obj = args.locals[args.args[0]]
+        elif args.varargs and args.locals.get(args.varargs):
+            # e.g. an __exit__ wrapped by a decorator whose wrapper takes *args
+            ret[-1].obj = args.locals[args.varargs][0]
 
     return ret
 
